@@ -195,13 +195,13 @@ Section Index.
 
   Lemma right_sibling_some : forall k i, k < Hh -> sib_of i * 2 ^ k < n ->
     exists s' k', right_sibling i k n = Some (s', k') /\ vnode n k' s' /\ nval k (sib_of i) = nval k' s' /\
-                  (k' = 0 \/ (2 * s' + 1) * 2 ^ (k' - 1) < n).
+                  (k' = 0 \/ (2 * s' + 1) * 2 ^ (k' - 1) < n) /\ k' <= k /\ s' * 2 ^ k' = sib_of i * 2 ^ k.
   Proof.
     intros k i Hk He. unfold right_sibling. fold (sib_of i).
     destruct (sib_descend_spec (S (N.to_nat k)) (sib_of i) k Hk) as (s' & k' & E1 & E2 & E3 & E4 & E5); [lia|].
     rewrite E1. pose proof (pow2N_pos k').
     assert (E : (n <=? s') = false) by nia. rewrite E.
-    exists s', k'. split; [reflexivity|]. split; [split; lia|]. split; [apply E5; exact He|exact E4].
+    exists s', k'. split; [reflexivity|]. split; [split; lia|]. split; [apply E5; exact He|]. split; [exact E4|]. split; assumption.
   Qed.
 
   (* value of the parent from the children *)
